@@ -165,7 +165,56 @@ def regenerate():
                              "Definition search_src_sha : unit := tt.\n")
         else:
             write_if_changed(target, out)
+    msgs += regenerate_lockorder()
     return msgs
+
+
+LOCKORDER_FILES = ["cache.go", "store.go", "ttl.go", "policy.go", "ring.go", "sketch.go"]
+LOCKORDER_FALLBACK = ("(* translator failed *)\nFrom Coq Require Import List String.\nImport ListNotations.\n"
+                      "Local Open Scope string_scope.\n"
+                      "Definition lock_classes : list string := [\"?\"].\n"
+                      "Definition lock_edges : list (string * string * string) := [(\"?\", \"?\", \"translator failed\")].\n"
+                      "Definition lock_chanops : list (string * string) := [].\n")
+
+
+def regenerate_lockorder():
+    """Gen/LockOrder.v: the mutex classes, the (held, acquired) pairs and the channel operations under a mutex of /repo's
+    cache sources, from tools/lockorder (go/types over the package source) through gen/lockorder2coq.py.  The analysis
+    type-checks the package from source (~5 s): its result is cached on the content of the package's Go files."""
+    target = os.path.join(COQ, "theories", "Gen", "LockOrder.v")
+    os.makedirs(os.path.dirname(target), exist_ok=True)
+    os.makedirs(BUILD, exist_ok=True)
+    h = hashlib.sha256()
+    for d in (REPO, os.path.join(REPO, "z")):
+        for f in sorted(os.listdir(d)):
+            if f.endswith(".go") and not f.endswith("_test.go"):
+                h.update(f.encode() + b"\0" + open(os.path.join(d, f), "rb").read())
+    src = os.path.join(ROOT, "tools", "lockorder")
+    for f in ("main.go",):
+        h.update(open(os.path.join(src, f), "rb").read())
+    h.update(open(os.path.join(ROOT, "gen", "lockorder2coq.py"), "rb").read())
+    stamp = os.path.join(BUILD, "lockorder.sha")
+    if os.path.exists(target) and os.path.exists(stamp) and open(stamp).read() == h.hexdigest():
+        return []
+    exe = os.path.join(BUILD, "lockorder")
+    if (not os.path.exists(exe)) or os.path.getmtime(exe) < os.path.getmtime(os.path.join(src, "main.go")):
+        rc, out = sh(["go", "build", "-o", exe, "."], cwd=src, env=goenv(), timeout=300)
+        if rc != 0:
+            write_if_changed(target, LOCKORDER_FALLBACK)
+            return ["lockorder does not build: " + out[-400:]]
+    rc, out = sh([exe, REPO] + LOCKORDER_FILES, cwd=REPO, env=goenv(), timeout=300)
+    facts = os.path.join(BUILD, "lockorder.facts")
+    open(facts, "w").write(out)
+    if rc != 0:
+        write_if_changed(target, LOCKORDER_FALLBACK)
+        return ["lockorder failed: " + out.strip()[-400:]]
+    rc, coq = sh([sys.executable, os.path.join(ROOT, "gen", "lockorder2coq.py"), facts], timeout=60)
+    if rc != 0:
+        write_if_changed(target, LOCKORDER_FALLBACK)
+        return ["lockorder2coq failed: " + coq.strip()[-400:]]
+    write_if_changed(target, coq)
+    open(stamp, "w").write(h.hexdigest())
+    return []
 
 
 def build_coq(timeout=3000):
